@@ -10,16 +10,19 @@
 From stdpp Require Import gmap.
 From Coq Require Import ZArith.
 
-Definition node := N.
-Definition elem := N.
-Definition dot : Type := node * N.
-Definition clock := gmap node N.
+Notation node := N (only parsing).
+Notation elem := N (only parsing).
+Notation dot := (N * N)%type (only parsing).
+Notation clock := (gmap N N) (only parsing).
 
 Definition two64 : N := 18446744073709551616%N.
 Definition u64 (x : N) : N := (x mod two64)%N.
 
+(* reading a Go map[string]uint64: a missing key reads 0 *)
+Definition cget (c : gmap node N) (n : node) : N := default 0%N (c !! n).
+
 (* isDominated: d.counter <= clock[d.nodeID] (missing key reads 0) *)
-Definition dominated (d : dot) (c : clock) : Prop := (d.2 ≤ c !!! d.1)%N.
+Definition dominated (d : dot) (c : clock) : Prop := (d.2 ≤ cget c d.1)%N.
 Global Instance dominated_dec d c : Decision (dominated d c).
 Proof. unfold dominated. apply _. Defined.
 
@@ -33,8 +36,8 @@ Definition clock_merge (r o : clock) : clock :=
 Record gcounter := GC { g_state : gmap node N; g_delta : gmap node N }.
 Definition g_new : gcounter := GC ∅ ∅.
 Definition g_inc (c : gcounter) (n : node) (v : N) : gcounter :=
-  GC (<[n := u64 (g_state c !!! n + v)]> (g_state c))
-     (<[n := u64 (g_delta c !!! n + v)]> (g_delta c)).
+  GC (<[n := u64 (cget (g_state c) n + v)]> (g_state c))
+     (<[n := u64 (cget (g_delta c) n + v)]> (g_delta c)).
 Definition g_sum (m : gmap node N) : N := map_fold (λ _ v acc, u64 (acc + v)) 0%N m.
 Definition g_value (c : gcounter) : N := g_sum (g_state c).
 (* for n,remote := range o.state { if local,ok := merged[n]; !ok || remote > local { merged[n] = remote } };
@@ -45,7 +48,7 @@ Definition g_merge (a b : gcounter) : gcounter := GC (g_merge_state (g_state a) 
 (* Delta: nil when no pending key; else the FULL per-node value of every pending key *)
 Definition g_deltaOf (c : gcounter) : option gcounter :=
   if decide (g_delta c = ∅) then None
-  else Some (GC (map_imap (λ n _, Some (g_state c !!! n)) (g_delta c)) ∅).
+  else Some (GC (map_imap (λ n _, Some (cget (g_state c) n)) (g_delta c)) ∅).
 Definition g_reset (c : gcounter) : gcounter := GC (g_state c) ∅.
 
 (* ------------------------------------------------------------------ PNCounter *)
@@ -93,7 +96,7 @@ Definition l_reset (r : lww) := LW (l_val r) (l_ts r) (l_node r) false.
 Record mvreg := MV { mv_entries : gmap dot N; mv_clock : clock; mv_dirty : bool }.
 Definition mv_new := MV ∅ ∅ false.
 Definition mv_set (r : mvreg) (n : node) (v : N) : mvreg :=
-  let c := (mv_clock r !!! n + 1)%N in
+  let c := (cget (mv_clock r) n + 1)%N in
   MV {[ (n, c) := v ]} (<[n := c]> (mv_clock r)) true.
 Definition mv_keep (oe : gmap dot N) (oc : clock) (kv : dot * N) : Prop :=
   ¬ dominated kv.1 oc ∨ is_Some (oe !! kv.1).
@@ -109,7 +112,7 @@ Definition mv_reset (r : mvreg) := MV (mv_entries r) (mv_clock r) false.
 Definition mv_values (r : mvreg) : list N := (map_to_list (mv_entries r)).*2.
 
 (* ------------------------------------------------------------------ ORSet *)
-Definition edot : Type := elem * dot.
+Notation edot := (N * (N * N))%type (only parsing).
 Record orset := ORS {
   s_entries : gset edot;     (* entries map[any][]dot  as the set of (element, dot) *)
   s_clock   : clock;
@@ -118,7 +121,7 @@ Record orset := ORS {
 }.
 Definition s_new := ORS ∅ ∅ ∅ ∅.
 Definition s_add (s : orset) (n : node) (x : elem) : orset :=
-  let c := (s_clock s !!! n + 1)%N in
+  let c := (cget (s_clock s) n + 1)%N in
   ORS (s_entries s ∪ {[ (x, (n, c)) ]}) (<[n := c]> (s_clock s)) (s_added s ∪ {[ (x, (n, c)) ]}) (s_removed s).
 Definition s_dots_of (x : elem) (E : gset edot) : gset edot := filter (λ e, e.1 = x) E.
 (* Remove: no-op (returns the receiver) when the element has no entry *)
@@ -141,7 +144,7 @@ Definition s_merge (s o : orset) : orset :=
    clock[n] = s.clock[n] for every node n that has an added dot (the WHOLE node clock),
    raised to the counter of every removed dot. *)
 Definition bump (n : node) (k : N) (acc : clock) : clock :=
-  if decide (acc !!! n < k)%N then <[n := k]> acc else acc.
+  if decide (cget acc n < k)%N then <[n := k]> acc else acc.
 Definition s_delta_clock (s : orset) : clock :=
   let c1 := set_fold (λ (e : edot) acc,
               match s_clock s !! e.2.1 with Some k => bump e.2.1 k acc | None => acc end) ∅ (s_added s) in
